@@ -284,6 +284,68 @@ func facts(root string) {
 			out["stateInfoStopsAtFirst"] = stops
 		}
 	}
+	// --- verifiable/credential.go + constants.go: the proof types VerifyProof's switch verifies (case constants in order, with the strings
+	// they stand for) and what its default arm returns
+	if f := parse("verifiable/credential.go"); f != nil {
+		constStr := map[string]string{}
+		if cf := parse("verifiable/constants.go"); cf != nil {
+			for _, d := range cf.Decls {
+				if gd, ok := d.(*ast.GenDecl); ok && gd.Tok == token.CONST {
+					for _, sp := range gd.Specs {
+						vs := sp.(*ast.ValueSpec)
+						for i, nm := range vs.Names {
+							if i < len(vs.Values) {
+								if sv, ok := strLit(vs.Values[i]); ok {
+									constStr[nm.Name] = sv
+								}
+							}
+						}
+					}
+				}
+			}
+		}
+		for _, d := range f.Decls {
+			fd, ok := d.(*ast.FuncDecl)
+			if !ok || fd.Name.Name != "VerifyProof" || fd.Body == nil {
+				continue
+			}
+			cases := [][2]string{}
+			deflt := "absent"
+			ast.Inspect(fd.Body, func(n ast.Node) bool {
+				sw, ok := n.(*ast.SwitchStmt)
+				if !ok {
+					return true
+				}
+				if id, ok := sw.Tag.(*ast.Ident); !ok || id.Name != "proofType" {
+					return true
+				}
+				for _, st := range sw.Body.List {
+					cc := st.(*ast.CaseClause)
+					if cc.List == nil {
+						deflt = "other"
+						if len(cc.Body) == 1 {
+							if rs, ok := cc.Body[0].(*ast.ReturnStmt); ok && len(rs.Results) == 1 {
+								if id, ok := rs.Results[0].(*ast.Ident); ok {
+									deflt = id.Name
+								}
+							}
+						}
+						continue
+					}
+					for _, e := range cc.List {
+						if id, ok := e.(*ast.Ident); ok {
+							cases = append(cases, [2]string{id.Name, constStr[id.Name]})
+						} else {
+							cases = append(cases, [2]string{"expr", ""})
+						}
+					}
+				}
+				return false
+			})
+			out["proofSwitch"] = cases
+			out["proofSwitchDefault"] = deflt
+		}
+	}
 	// --- verifiable/resolver.go: how the methods of CredentialStatusResolverRegistry use their type parameter: every index into
 	// (or delete from) the resolvers map must be by the method's own first parameter, as it was given; and which package-level
 	// names a method mentions
